@@ -274,7 +274,9 @@ class Interpreter(object):
             self.current_entry = self.bib_data.entries[key]
             self.current_entry_vars = self.entry_vars[key]
             f.execute(self)
-        self.currentEntry = None
+            # no entry is current outside ITERATE / REVERSE (EXECUTE sees the
+            # same state as before the first ITERATE)
+            del self.current_entry_key, self.current_entry, self.current_entry_vars
 
     def command_macro(self, name_, value_):
         name = name_[0].value()
